@@ -14,6 +14,7 @@ pub fn entry_sets(tier: Tier) -> Vec<Vec<(&'static str, &'static str)>> {
         vec![("b", "00")],
         vec![("b", "ff0a"), ("a", "00")],
         vec![("sha1", "00"), ("b", "ff0a"), ("é", "")],
+        vec![("a", "00"), ("a1", "11"), ("a-", "22")],
         vec![("b", "00"), ("a", "ff0a"), ("ǆ", "0a"), ("sha256", "")],
         vec![("md5", "00"), ("sha1", "11"), ("sha256", "22"), ("sha512", "33")],
     ];
